@@ -93,3 +93,62 @@ HEADER = {
 for d in range(24, 32): HEADER[d] = {"df": (1, 5), "ca": (6, 3), "aa": (9, 24), "tc": (33, 5), "ap": (89, 24)}
 
 def field(b, first, w): return get(b, first - 1, w)
+
+# ---------------------------------------------------------------- C10: ME / MB payload fields (Appendix B), ME bit numbers
+import struct
+def f32(x): return struct.unpack("<f", struct.pack("<f", x))[0]
+def f32bits(x): return struct.unpack("<I", struct.pack("<f", x))[0]
+def me(b, first, w): return get(b, 32 + first - 1, w)
+
+def spec_airpos(b):
+    a = ac12(me(b, 9, 12))
+    return "tc=%d ss=%d saf=%d alt=%s t=%d f=%d lat=%d lon=%d" % (me(b, 1, 5), me(b, 6, 2), me(b, 8, 1), "-" if a is None else a,
+                                                                 me(b, 21, 1), me(b, 22, 1), me(b, 23, 17), me(b, 40, 17))
+def spec_surface(b):
+    return "Surface mov=%d s=%d trk=%d t=%d f=%d lat=%d lon=%d" % (me(b, 6, 7), me(b, 13, 1), me(b, 14, 7), me(b, 21, 1), me(b, 22, 1), me(b, 23, 17), me(b, 40, 17))
+def spec_tss(b):
+    n = me(b, 10, 11); alt = (n - 1) * 32 if n > 1 else 0
+    q = me(b, 21, 9); qv = 0.0 if q == 0 else f32(800.0 + f32(f32(float(q - 1)) * f32(0.8)))
+    h = me(b, 31, 9); hv = f32(f32(float(h) * 180.0) / 256.0)
+    return ("TSS subtype=%d fms=%d alt=%d qnh=%08x ih=%d hdg=%08x nacp=%d nicbaro=%d sil=%d mv=%d ap=%d vnav=%d ah=%d imf=%d app=%d tcas=%d lnav=%d" % (
+        me(b, 6, 2), me(b, 9, 1), alt, f32bits(qv), me(b, 30, 1), f32bits(hv), me(b, 40, 4), me(b, 44, 1), me(b, 45, 2), me(b, 47, 1), me(b, 48, 1),
+        me(b, 49, 1), me(b, 50, 1), me(b, 51, 1), me(b, 52, 1), me(b, 53, 1), me(b, 54, 1)))
+def spec_om(b): return "%d,%d,%d,%d,%d" % (me(b, 27, 1), me(b, 28, 1), me(b, 29, 1), me(b, 30, 1), me(b, 31, 2))
+def spec_opair(b):
+    return ("OpAir acas=%d cdti=%d arv=%d ts=%d tc=%d om=%s ver=%d nica=%d nacp=%d gva=%d sil=%d nicbaro=%d hrd=%d ss=%d" % (
+        me(b, 11, 1), me(b, 12, 1), me(b, 15, 1), me(b, 16, 1), me(b, 17, 2), spec_om(b), me(b, 41, 3), me(b, 44, 1), me(b, 45, 4), me(b, 49, 2),
+        me(b, 51, 2), me(b, 53, 1), me(b, 54, 1), me(b, 55, 1)))
+def spec_opsurf(b):
+    return ("OpSurf poe=%d es=%d b2=%d uat=%d nacv=%d nicc=%d lw=%d om=%s gps=%d ver=%d nica=%d nacp=%d sil=%d nicbaro=%d hrd=%d ss=%d" % (
+        me(b, 11, 1), me(b, 12, 1), me(b, 15, 1), me(b, 16, 1), me(b, 17, 3), me(b, 20, 1), me(b, 21, 4), spec_om(b), me(b, 33, 8), me(b, 41, 3),
+        me(b, 44, 1), me(b, 45, 4), me(b, 51, 2), me(b, 53, 1), me(b, 54, 1), me(b, 55, 1)))
+def spec_dlc(b):
+    return ("DLC cont=%d ov=%d acas=%d sub=%d enh=%d spec=%d up=%d down=%d ic=%d sc=%d sic=%d gicb=%d ra=%d ba=%04x" % (
+        me(b, 9, 1), me(b, 15, 1), me(b, 16, 1), me(b, 17, 7), me(b, 24, 1), me(b, 25, 1), me(b, 26, 3), me(b, 29, 4), me(b, 33, 1), me(b, 34, 1),
+        me(b, 35, 1), me(b, 36, 1), me(b, 37, 4), me(b, 41, 16)))
+
+def spec_me_kind(tc, st):
+    if tc == 0: return "NoPosition"
+    if tc <= 4: return "Ident"
+    if tc <= 8: return "Surface"
+    if tc <= 18: return "AirPosBaro"
+    if tc == 19: return "Velocity"
+    if tc <= 22: return "AirPosGnss"
+    if tc == 23: return "Reserved0"
+    if tc == 24: return "SurfaceSystemStatus"
+    if tc <= 27: return "Reserved1"
+    if tc == 28: return "Status"
+    if tc == 29: return "TSS"
+    if tc == 30: return "OpCoord"
+    return {0: "OpAir", 1: "OpSurf"}.get(st, "OpRes")
+
+def spec_me(b):
+    """expected text of me={...} for the interpreted types, else None (only the kind is checked)"""
+    tc = me(b, 1, 5); st = me(b, 6, 3)
+    k = spec_me_kind(tc, st)
+    if k in ("AirPosBaro", "AirPosGnss"): return k, k + " " + spec_airpos(b)
+    if k == "Surface": return k, spec_surface(b)
+    if k == "TSS": return k, spec_tss(b)
+    if k == "OpAir": return k, spec_opair(b)
+    if k == "OpSurf": return k, spec_opsurf(b)
+    return k, None
